@@ -93,3 +93,35 @@ extern "C" void h_checkminimalpush(void) {
     __CPROVER_assert(r == e, "spec: BIP62 rule 3 - a push is minimal exactly when no shorter opcode could have pushed the same bytes");
     __CPROVER_assert(!(r && op == 0x4d), "canary: minimal OP_PUSHDATA2 reachable");
 }
+
+// ---- FindAndDelete (legacy signature hashing removes the signature push from the script code): every occurrence of b that
+// starts on an operation boundary is removed, nothing else; the number removed is returned.  Scripts <= H_SCRIPT_N bytes.
+extern "C" void h_findanddelete(void) {
+    CScript s, b; __CPROVER_havoc_object(&s); __CPROVER_havoc_object(&b);
+    __CPROVER_assume(s.n <= H_SCRIPT_N && b.n <= 3);
+    CScript s0 = s;
+    // spec: walk the operations; at each boundary skip all copies of b, then copy one operation (a final undecodable tail is copied verbatim)
+    unsigned char out[H_SCRIPT_N]; size_t on = 0; int found = 0; size_t off = 0; bool stop = false;
+    if (b.n > 0) {
+        for (size_t k = 0; k < H_SCRIPT_N + 1; ++k) {
+            if (stop) break;
+            for (size_t r = 0; r < H_SCRIPT_N + 1; ++r) {          // remove repeated occurrences at this boundary
+                bool m = s0.n - off >= b.n;
+                for (size_t i = 0; i < 3; ++i) if (m && i < b.n && s0.s.a[off + i] != b.s.a[i]) m = false;
+                if (!m) break;
+                off = off + b.n; found = found + 1;
+            }
+            spec_op e = spec_decode(s0.s.a, s0.n, off);
+            size_t take = e.ok ? e.hdr + (size_t)e.nsize : s0.n - off;   // the rest of an undecodable script is kept as it is
+            for (size_t i = 0; i < H_SCRIPT_N; ++i) if (i < take) out[on + i] = s0.s.a[off + i];
+            on = on + take; off = off + take;
+            if (!e.ok) stop = true;
+        }
+    }
+    int r = FindAndDelete(s, b);
+    __CPROVER_assert(r == found, "spec: FindAndDelete returns the number of occurrences on operation boundaries");
+    if (found == 0) { __CPROVER_assert(s == s0, "spec: without an occurrence the script is unchanged"); }
+    else { __CPROVER_assert(s.n == on, "spec: the script shrinks by exactly the removed occurrences");
+           for (size_t i = 0; i < H_SCRIPT_N; ++i) if (i < on) __CPROVER_assert(s.s.a[i] == out[i], "spec: all other bytes are kept, in order"); }
+    __CPROVER_assert(found != 2, "canary: two occurrences reachable");
+}
